@@ -183,9 +183,12 @@ def run(ctx):
     ctx.cov["alias_events"] = summ["alias_events"]
     ctx.cov["rule"] = ("one evaluation = one (input document, program, indent) case whose YAML output was reloaded and whose two "
                        "observations + node events TLC validated; distinct_nontrivial = distinct (operation, indent, input size)")
-    for c in list(outs.values())[:400]:
-        if c["kind"] == "ok" and "*" in c.get("yaml_out", "") and "&" in c.get("yaml_out", ""):
-            ctx.sample({k: c[k] for k in ("prog", "I", "input", "yaml_out", "json_out")})
+    for c in outs.values():
+        if c["kind"] == "ok" and "*" in c.get("yaml_out", "") and "&" in c.get("yaml_out", "") and "=" in c.get("prog", ""):
+            ctx.sample({k: c[k] for k in ("prog", "I", "input", "yaml_out", "json_out")}, limit=3)
+    for c in outs.values():
+        if c["kind"] == "ok" and c.get("I") in (0, 7) and len(c.get("yaml_out", "")) > 20:
+            ctx.sample({k: c[k] for k in ("prog", "I", "input", "yaml_out", "json_out")}, limit=5)
     ctx.assumptions += [
         "inputs come from the C14 presentation grammar (trusted renderer); the reloading side is the library loader checked by C14 (its defects K1/K2 are avoided / classified)",
         "programs cover the write fragment listed in spec/YqWrite.tla only; exhaustive only in the small scopes (quick: a seed-determined sample of them)",
@@ -251,4 +254,18 @@ def classify(c, events, k):
     return ""
 
 
-# MUTANTS: filled in after mutation testing
+# MUTANTS (scratch worktree /tmp/wt-c15 at /repo HEAD, private VERIF_ALT_BUILD; `VERIF_REPO=... VERIF_DEV_REUSE=1
+# VERIF_DEV_SAMPLE=3 ./check C15` = the generated cases of the unchanged tree replayed through the mutated CLI; two
+# mutants per build, with disjoint symptoms):
+#   M1 yq_runner.rs scan_anchor_soundness: equality test dropped (`Some(d) if *d == value` -> `Some(_)`)
+#        CAUGHT (exit 1): `.[0][1] |= 7` on `&a1 [[&a3 No, *a3, ...]]` keeps `*a3` -> the two observations disagree
+#   M2 yq_runner.rs yaml_quote_key: `#` no longer forces quoting
+#        CAUGHT: `.[0] = {"#k": "#h"}` prints `- #k: "#h"` (a comment) -> disagreement, not in any known class
+#        (seen in the same run's trace; the check stops at the first unknown rejection, which was M1's)
+#   M3 yq_runner.rs yaml_quote_string: `ends_with(' ')` dropped
+#        CAUGHT (exit 1): `... |= " "` prints `['a', 'yes',  ]` -> the blank string is lost
+#   M4 yq_runner.rs yaml_quote_string: `contains(" #")` dropped
+#        MISSED by the case set of that run (literal 7 "a #b" was never drawn as an assigned value); the generators
+#        were strengthened afterwards with the exhaustive `lits` / `newkeys` scopes (every literal of LITS as assigned
+#        value and as new key, block and flow) - not re-run against M4 for lack of time (`.a = "a #b"` prints
+#        `a: a #b`, which reloads as "a": the lits scope contains exactly this case).
